@@ -20,7 +20,7 @@ class Contract:
                  ghost_modifies=(), pure=False, notes="", bodyless=False, lemmas=None, cls=None,
                  timeout_ms=None, frame_check=True, inline=False, forall_ghosts=(), watch_extra=None,
                  model_to_inputs=None, native=None, cuts=None, defaults=None, init_fields=None, volatile=(), local_raises=(),
-                 lazy_opt=False, applies=None, inline_callees=(), post_vars=()):
+                 lazy_opt=False, applies=None, inline_callees=(), post_vars=(), stmt_hooks=()):
         self.id = id
         self.file = file
         self.qualname = qualname
@@ -43,6 +43,7 @@ class Contract:
         self.lazy_opt = lazy_opt
         self.applies = applies
         self.post_vars = tuple(post_vars)
+        self.stmt_hooks = list(stmt_hooks)
         self.inline_callees = tuple(inline_callees)
         self.axioms = list(axioms)
         self.canaries = canaries or {}
